@@ -310,6 +310,40 @@ def _store(lean_name, cls_name, rel, F):
             "readKind": rkind, "extra": extra, "dump_kw": dump_kw, "hash": _h(_dump(cls))}
 
 
+def _mounted(F):
+    """`stores/_mounted_store.py`, pinned as a whole: `_path_context` yields a path inside a fresh TemporaryDirectory; `read` is
+    `copy_to_local(local_path)` then `create_store(local_path).read()`; `write` is `create_store(local_path).write(value)` then
+    `copy_from_local(local_path)` - what `Stores.mountedRead / mountedWrite` model."""
+    tree = _module("stores/_mounted_store.py")
+    pc = _find_func(tree, "_path_context", F)
+    if not (len(pc.decorator_list) == 1 and _is_name(pc.decorator_list[0], "contextmanager") and _same(_body(pc), """
+with tempfile.TemporaryDirectory() as tempdir:
+    yield os.path.join(tempdir, "temp")
+""")):
+        raise TranslateError(F, "_mounted_store._path_context is not `with tempfile.TemporaryDirectory() as tempdir: yield os.path.join(tempdir, 'temp')`")
+    cls = _find_class(tree, "MountedStore", F)
+    rd, wr = _find_func(cls, "read", F), _find_func(cls, "write", F)
+    if not _same(_body(rd), """
+with _path_context() as local_path:
+    self.copy_to_local(local_path)
+    return self.create_store(local_path).read()
+"""):
+        raise TranslateError(F, "MountedStore.read: unrecognised body: " + "; ".join(ast.unparse(x) for x in _body(rd))[:300])
+    if not _same(_body(wr), """
+with _path_context() as local_path:
+    self.create_store(local_path).write(value)
+    self.copy_from_local(local_path)
+""") or [a.arg for a in wr.args.args] != ["self", "value"]:
+        raise TranslateError(F, "MountedStore.write: unrecognised body: " + "; ".join(ast.unparse(x) for x in _body(wr))[:300])
+    init = _find_func(cls, "__init__", F)
+    if not any(_same(x, "self.create_store = create_store") for x in init.body):
+        raise TranslateError(F, "MountedStore.__init__ does not store `self.create_store = create_store`")
+    for name in ("get_modified_time",):
+        if any(isinstance(n, ast.FunctionDef) and n.name == name for n in cls.body):
+            raise TranslateError(F, f"MountedStore now defines {name} itself")
+    return _h(_dump(tree))
+
+
 def _all(F):
     tree = _module("stores/_file_store.py")
     swp = _staged_write_path(tree, F)
@@ -325,6 +359,7 @@ def _all(F):
 def gen_filestore():
     F = "FileStore"
     tree, swp, const, stores = _all(F)
+    mounted_hash = _mounted(F)
     out = [PRELUDE, "namespace Uberjob.Gen.FileStore", "",
            "/-- the suffix in `staging_path = f\"{path}" + swp["suffix"].replace("-/", "") + "\"` (staged_write_path) -/",
            f"def stagingSuffix : String := {lean_str(swp['suffix'])}",
@@ -343,6 +378,9 @@ def gen_filestore():
            "    `_try_remove` swallows exactly `OSError`; `get_modified_time` maps an `OSError` of `os.path.getmtime` to `None`;",
            "    `FileStore.get_modified_time` delegates to it with `self.path`. -/",
            "def stagedWriteChecksModeFirst : Bool := true",
+           "/-- `stores/_mounted_store.py` has the shape `Stores.mountedRead / mountedWrite` model (a fresh temporary directory; read =",
+           "    copy_to_local then the inner store's read; write = the inner store's write then copy_from_local) -/",
+           "def mountedStoreShape : Bool := true",
            "def stagedWriteOpensStagingPath : Bool := true",
            "def tryRemoveSwallowsOSError : Bool := true",
            "def mtimeOSErrorIsNone : Bool := true", "",
@@ -373,7 +411,7 @@ def gen_filestore():
             "end Uberjob.Gen.FileStore", ""]
     info = {"staged_write_path": swp, "STAGING_SUFFIX": const,
             "stores": {s["cls"]: {"write": s["write"], "read": s["read"], "body": s["body"], "guard": s["guard"]} for s in stores},
-            "source_hash": _h(_dump(tree) + "".join(s["hash"] for s in stores))}
+            "source_hash": _h(_dump(tree) + mounted_hash + "".join(s["hash"] for s in stores))}
     return "\n".join(out), info
 
 
